@@ -60,7 +60,8 @@ META = {
   "guarded by transition[0] == (statuses of exactly the key it touches, old status for remove, new for update) with weight "
   "get_weight[transition][key]; coverage of key shapes is complete for the spontaneous, undirected and directed sections; "
   "initial fill, rate tables, weight tables and event application read the matching spec graph/components. "
-  "_ListDict_ keeps no mutable class-level attribute (STATE): the candidate sets of one run are not those of the previous one.",
+  "_ListDict_ keeps no mutable class-level attribute (STATE): the candidate sets of one run are not those of the previous one. "
+  "Every loop of the event section that changes candidate sets carries the roundoff guard.",
   "Not decided: that the resulting process has the stated law; behaviour of user rate functions.",
   "ast: exhaustive key-shape x operation analysis of the enabled-event sets (R11s), selection/clock agreement, R12, R9"),
  "C04": _m(
@@ -95,7 +96,8 @@ META = {
   "the node/edge whose statuses name them; no None use or unbound name on any combination of optional arguments (all "
   "assignments enumerated, callee bodies entered); list-or-array arguments are converted before arithmetic (ARR); the *_pure_IC "
   "indicator arrays mark exactly the requested sets (alias-aware taint, ICP); with a nodelist in scope positional data is built "
-  "over nodelist, never in graph order (ORD).",
+  "over nodelist, never in graph order (ORD). "
+  "Aggregates over a block of the solution are taken before the block is reshaped in place to three dimensions (R4s); no dict.fromkeys / [v]*n hands one mutable object to every degree class or node (SHARE over analytic).",
   "Not decided: solver tolerance, bounds [0,N], monotonicity, documented order of return tuples (docstrings are inconsistent), array shapes.",
   "ast: flag-enumerating abstract interpreter (R2/R3), linear normaliser (CONS), layout agreement by offset evaluation (R4), call-binding (R1/R16w), role rules"),
  "C09": _m(
@@ -155,7 +157,8 @@ META = {
   "are built in nodelist order wherever a nodelist is in scope, nodelist is forwarded by wrappers, and degree-class arrays are "
   "indexed by the degree of the node whose status names them; every loop that fixes the position of a degree class in a packed "
   "state vector uses one order on both sides (R4o); a node label is never used as a truth value (TRUTHY), compared by identity, "
-  "or put into a numpy array / numpy set function (R6n); with a nodelist in scope no positional sequence is built in graph order (ORD).",
+  "or put into a numpy array / numpy set function (R6n); with a nodelist in scope no positional sequence is built in graph order (ORD). "
+  "No dict.fromkeys / [v]*n hands one mutable object to every degree class or node (SHARE over analytic).",
   "Not decided: floating-point rounding under re-ordering.",
   "ast: node/position kind inference (R6), role rules for degree-class arrays, layout-order agreement (R4o), call-binding for nodelist, TRUTHY/IDENT"),
  "C15": _m(
@@ -172,13 +175,15 @@ META = {
   "weight/max_weight on a uniform proposal; total_weight() accessor; insert = remove + update unless weight 0; and in the four "
   "Gillespie simulators the clock rate is the sum of the CURRENT total weights of the candidate sets, recomputed after every event "
   "(symbolic expansion, RATE / R11c). "
-  "_ListDict_ keeps no mutable class-level attribute (STATE): the candidate sets of one run are not those of the previous one.",
+  "_ListDict_ keeps no mutable class-level attribute (STATE): the candidate sets of one run are not those of the previous one. "
+  "Every loop of Gillespie_simple_contagion's event section that changes candidate sets carries the roundoff guard.",
   "Not decided: floating-point drift of _total_weight ('to rounding'); negative increments (outside the quantifier).",
   "ast: class-invariant rules on symbolic store deltas and control-context facts (R12), symbolic rate expansion (RATE)"),
  "C17": _m(
   "estimate_SIR_prob_size_from_dir_perc = (|in-component|, |out-component|) of a node of the largest SCC of the whole H over "
   "H.order(); estimate_SIR_prob_size = largest component of percolate_network(G,p) over G.order() twice; wrappers build H "
-  "with the builder that keeps all nodes; xi/zeta and delay<=duration edge rules; component helpers use ancestors/descendants.",
+  "with the builder that keeps all nodes; xi/zeta and delay<=duration edge rules; component helpers use ancestors/descendants. "
+  "The start node of the component search is a member of the largest SCC chosen without ordering node labels.",
   "Not decided: nothing numeric beyond set sizes; ties between equally large components are resolved by max (any satisfies the statement).",
   "ast: role-agreement rules with local definition expansion (R14), R1"),
  "C18": _m(
@@ -186,7 +191,8 @@ META = {
   "entropy imports; positive fixture must fire); no iteration/pop/list() over a set in the continuous-time simulators and what "
   "they reach (set algebra on keys views included); selection lists sorted(); no draw control dependent on return_full_data; "
   "full-data hand-off reads only executed events; no simulator modifies its arguments (a repeated call sees the same inputs); no "
-  "state survives a call (no allocating default argument, no mutable class-level attribute: STATE).",
+  "state survives a call (no allocating default argument, no mutable class-level attribute: STATE). "
+  "Iteration over the sets held by a mapping of sets (nx.utils.groups) counts as hash-ordered iteration (R7b).",
   "Not decided: byte equality across processes (a two-execution property).",
   "ast: forbidden-source scan with positive fixture (R7a), container-kind inference for set iteration (R7b), control dependence (R7c), argument-effect analysis (R5)"),
  "C19": _m(
@@ -194,13 +200,15 @@ META = {
   "object that may alias one of its arguments, directly or through any package function, queue handler or ODE right-hand "
   "side it calls (flow-sensitive alias walk: same / view; bottom-up effect summaries to a fixpoint); no global statements; a "
   "mapping of defaultdict rows that the package itself produces (get_Pnk) is read only with keys of the row read (R5d: a miss "
-  "would insert into the caller's object); no allocating default argument or mutable class attribute (STATE).",
+  "would insert into the caller's object); no allocating default argument or mutable class attribute (STATE). "
+  "Objects are followed through displays (for b in (Y0, XY0)) and shallow copies (X.copy(), dict(X), list(X): the rows of a copied dict of dicts are still the caller's); SHARE over analytic.",
   "Not decided: 'returns identical results' beyond absence of effects and hidden state.",
   "ast: interprocedural argument-effect analysis (R5), read-inserts rule for defaultdict rows (R5d)"),
  "C20": _m(
   "PGF lambdas parsed into Pk . (coef * x**(ks-c)) and differentiated by the power rule in the checker: psi' = d psi, psi'' = "
   "d psi' over the full support 0..maxk; estimate_R0 = T psi''(1)/psi'(1) with T = tau/(tau+gamma); get_Pk / get_Pnk counting "
-  "shape; subsample is a two-pointer scan with <= whose recursion shifts the remaining series; get_time_shift is a first-crossing scan.",
+  "shape; subsample is a two-pointer scan with <= whose recursion shifts the remaining series; get_time_shift is a first-crossing scan. "
+  "The degree grid of get_PGFPrime / get_PGFDPrime is a float array (negative integer powers of an integer argument raise).",
   "Not decided: numeric identities psi(1)=1 etc. (follow from the shapes checked), behaviour on malformed grids.",
   "ast: symbolic differentiation of a small polynomial term language (R15), scan-shape rules (SUB)"),
 }
